@@ -114,6 +114,8 @@ def c06(run):
     run.validate("maccmd", t, "Trace_maccmd", label="(V) 3-5 byte payloads -> decoder", chunk=50000)
     t = run.record("maccmd", "values", n=T(run, 20000, 1000000))
     run.validate("maccmd", t, "Trace_maccmd", label="(V) random values -> encoder", chunk=100000)
+    t = run.record("registry", "random", n=T(run, 120, 2000))
+    run.validate("registry", t, "Trace_registry", label="(V) command streams decoded along registry histories (registrations, refused registrations, removals), each history in a fresh process", group_on="reset", chunk=8000)
     t = run.record("maccmd", "streams", n=T(run, 1500, 60000))
     run.validate("maccmd", t, "Trace_maccmd", label="(V) several commands (incl. repeated CIDs) in one FOpts / port-0 payload -> decoder", chunk=50000)
     fcases = gen_frame_cases(run, "val")
